@@ -671,8 +671,9 @@ func checkC19(P *Program, r *Result, tier string) {
 		okNilRet, okCall := false, false
 		detail := ""
 		stray := ""
-		for _, ret := range returnsOf(fn) {
-			v := ret.Results[0]
+		for _, rc := range retCases(fn) {
+			ret := rc.ret
+			v := rc.results[0]
 			if c := asCall(v); c != nil && !c.Common().IsInvoke() {
 				// dynamic call of the loaded callback with the parameters in order
 				ld, isLd := c.Common().Value.(*ssa.UnOp)
@@ -1005,8 +1006,8 @@ func checkC18(P *Program, r *Result, tier string) {
 		trueOK, elseOK := false, false
 		detail := ""
 		trueOK, detail = isTrueOnlyUnderEquality(fn, 0)
-		for _, ret := range returnsOf(fn) {
-			v := ret.Results[0]
+		for _, rc := range retCases(fn) {
+			v := rc.results[0]
 			if c := staticCallNamed(v, "Is"); c != nil && fnPkgPath(c.Common().StaticCallee()) == "errors" {
 				ld, isLd := c.Common().Args[0].(*ssa.UnOp)
 				if isLd && pathOf(ld.X) == "P:"+recv.Name()+".err" && c.Common().Args[1] == target {
@@ -1091,18 +1092,20 @@ func wrapHelperRule(P *Program, r *Result, rel string) {
 					}
 				}
 			}
-			for _, ret := range returnsOf(fn) {
-				if ret.Results[0] == val && okv != nil && guardedBy(ret, okv, true) {
+			for _, rc := range retCases(fn) {
+				ret := rc.ret
+				res0 := rc.results[0]
+				if res0 == val && okv != nil && caseGuardedBy(rc, okv, true) {
 					idOK = true
 				}
-				if okv != nil && guardedBy(ret, okv, false) {
+				if okv != nil && caseGuardedBy(rc, okv, false) {
 					// new exception whose err field holds the argument — on every such way out
 					nOther++
 					wrapOK = false
 					var obj ssa.Value
-					if c := staticCallNamed(ret.Results[0], "NewProtocolException"); c != nil {
+					if c := staticCallNamed(res0, "NewProtocolException"); c != nil {
 						obj = c
-					} else if al, isAl := ret.Results[0].(*ssa.Alloc); isAl && typeIsPtrTo(al.Type(), "ProtocolException") {
+					} else if al, isAl := res0.(*ssa.Alloc); isAl && typeIsPtrTo(al.Type(), "ProtocolException") {
 						obj = al
 					}
 					if obj != nil && obj.Referrers() != nil {
@@ -1111,7 +1114,7 @@ func wrapHelperRule(P *Program, r *Result, rel string) {
 								st := deref(fa.X.Type()).Underlying().(*types.Struct)
 								if st != nil && canonFieldName(fa.X.Type(), fa.Field) == "err" {
 									for _, r2 := range *fa.Referrers() {
-										if s, ok := r2.(*ssa.Store); ok && s.Val == errp && instrDominates(s, ret) {
+										if s, ok := r2.(*ssa.Store); ok && s.Val == errp && instrDominates(s, rc.at) {
 											wrapOK = true
 										}
 									}
@@ -1161,8 +1164,8 @@ func isTrueOnlyUnderEquality(fn *ssa.Function, depth int) (bool, string) {
 		return
 	}
 	any := false
-	for _, ret := range returnsOf(fn) {
-		v := ret.Results[0]
+	for _, rc := range retCases(fn) {
+		v := rc.results[0]
 		idEq, txtEq := false, false
 		note := func(c ssa.Value, truth bool) {
 			if bo, ok := c.(*ssa.BinOp); ok && ((bo.Op == token.EQL && truth) || (bo.Op == token.NEQ && !truth)) {
@@ -1180,7 +1183,7 @@ func isTrueOnlyUnderEquality(fn *ssa.Function, depth int) (bool, string) {
 				}
 			}
 		}
-		for _, dc := range blockConds(ret.Block(), nil, 0) {
+		for _, dc := range caseConds(rc) {
 			note(dc.Cond, dc.Truth)
 		}
 		switch x := v.(type) {
@@ -1197,7 +1200,7 @@ func isTrueOnlyUnderEquality(fn *ssa.Function, depth int) (bool, string) {
 				}
 				if tv == ssa.Value(fn.Params[1]) {
 					wrappedNil := false
-					for _, dc := range blockConds(ret.Block(), nil, 0) {
+					for _, dc := range caseConds(rc) {
 						if bo, ok := dc.Cond.(*ssa.BinOp); ok && (isNilConst(bo.X) || isNilConst(bo.Y)) && (bo.Op == token.EQL) == dc.Truth {
 							cv := bo.X
 							if isNilConst(cv) {
